@@ -50,6 +50,43 @@ pub fn dir_entry_offsets(file: &[u8]) -> Vec<usize> {
     out
 }
 
+/// content of the first STREAM entry called `name` that is held in regular sectors (size >= 4096), read through
+/// the FAT by this independent walk; `None` for a missing name or a mini-stream entry
+pub fn read_regular_stream(file: &[u8], name: &str) -> Option<Vec<u8>> {
+    let ss = 1usize << u16::from_le_bytes([file[30], file[31]]);
+    let per = ss / 4;
+    let sector = |k: u32| (k as usize + 1) * ss;
+    let mut fat_ids: Vec<u32> = (0..109).map(|k| u32_at(file, 76 + 4 * k)).filter(|x| *x < 0xFFFF_FFFA).collect();
+    let mut dif = u32_at(file, 68);
+    let mut guard = 0;
+    while dif < 0xFFFF_FFFA && guard < 1 << 16 {
+        let o = sector(dif);
+        for k in 0..per - 1 {
+            let x = u32_at(file, o + 4 * k);
+            if x < 0xFFFF_FFFA {
+                fat_ids.push(x);
+            }
+        }
+        dif = u32_at(file, o + 4 * (per - 1));
+        guard += 1;
+    }
+    let off = dir_entry_offsets(file).into_iter().find(|o| file[o + 66] == 2 && entry_name(file, *o) == name)?;
+    let size = if ss == 512 { u32_at(file, off + 120) as usize } else { u64::from_le_bytes(file[off + 120..off + 128].try_into().ok()?) as usize };
+    if size < 4096 {
+        return None;
+    }
+    let mut out = Vec::with_capacity(size);
+    let mut s = u32_at(file, off + 116);
+    while s < 0xFFFF_FFFA && out.len() < size {
+        let o = sector(s);
+        out.extend_from_slice(file.get(o..(o + ss).min(file.len()))?);
+        let id = *fat_ids.get(s as usize / per)?;
+        s = u32_at(file, sector(id) + 4 * (s as usize % per));
+    }
+    out.truncate(size);
+    Some(out)
+}
+
 pub fn entry_name(file: &[u8], off: usize) -> String {
     let units: Vec<u16> = (0..32).map(|k| u16::from_le_bytes([file[off + 2 * k], file[off + 2 * k + 1]])).take_while(|u| *u != 0).collect();
     String::from_utf16_lossy(&units)
